@@ -10,3 +10,11 @@ mod stubs;
 mod util;
 #[cfg(kani)]
 mod c10;
+#[cfg(kani)]
+mod c16;
+#[cfg(kani)]
+mod c09;
+#[cfg(y_crdt_y_crdt_verif)]
+mod c13_model;
+#[cfg(kani)]
+mod c13;
